@@ -233,6 +233,10 @@ TINY = {f"{R}/t_vis.f90": "public :: foo\n", f"{R}/t_vis2.f90": "module tv\n  in
 DOCS = {**TINY, f"{R}/shapes.f90": MOD, f"{R}/shapes_impl.f90": SUBMOD, f"{R}/main.f90": PROG, f"{R}/broken.f90": BROKEN,
         f"{R}/ppmod.F90": PP, f"{R}/toplevel.f90": TOPLEVEL, f"{R}/fixed.f": FIXED}
 
+from harness.extra_docs import EXTRA as _EXTRA  # noqa: E402
+
+DOCS.update({f"{R}/{k}": v for k, v in _EXTRA.items()})
+
 # (P4) one line per intrinsic / keyword / statement
 _names = sorted({o.name for o in SRV.intrinsic_funs} | {o.name for o in get_intrinsic_keywords(SRV.statements, SRV.keywords, 0)}
                 | {o.name for o in get_intrinsic_keywords(SRV.statements, SRV.keywords, 1)})
